@@ -56,7 +56,8 @@ def worker(w, seeds):
         with open(OUT, "a") as o:
             o.write(json.dumps(rec) + "\n")
         print(json.dumps(rec), flush=True)
-    shutil.rmtree(base, ignore_errors=True)
+    if not os.environ.get("SEEDSWEEP_KEEP"):      # keep the copies (replays, reports) for inspection
+        shutil.rmtree(base, ignore_errors=True)
 
 def main():
     seeds = sorted(os.path.basename(os.path.dirname(p)) for p in glob.glob(SEEDS + "/*/patch.diff"))
